@@ -522,8 +522,9 @@ def run_property(pid, tier="quick", seed=0, only=None, procs=None, verbose=False
         "wall_s": round(wall, 2),
         "violations": len(new_violations),
     }
-    os.makedirs(os.path.join(VERIF, "evidence"), exist_ok=True)
-    json.dump(evidence, open(os.path.join(VERIF, "evidence", f"{pid}.json"), "w"), indent=1)
+    evdir = os.environ.get("SYMX_EVIDENCE_DIR") or os.path.join(VERIF, "evidence")
+    os.makedirs(evdir, exist_ok=True)
+    json.dump(evidence, open(os.path.join(evdir, f"{pid}.json"), "w"), indent=1)
     for ln in lines:
         print(ln)
     print(f"{pid} [{tier}] cases={len(cases)} paths={agg['paths']} (ok={agg.get('ok',0)} cut={agg.get('cut',0)} "
